@@ -1,8 +1,9 @@
-(* Properties_C15.v — C15: the nesting limit bounds recursion for every input (JSON reader;
-   the MessagePack reader's statements are in the second half once its proofs are in). *)
+(* Properties_C15.v — C15: the nesting limit bounds recursion for every input (JSON reader, then the
+   MessagePack reader). *)
 From Coq Require Import NArith ZArith List Bool.
 From AJ Require Import Model.Base Model.Value Model.JsonParse.
-From AJ Require Import Spec.ParseSpec Proofs.Lex Proofs.ParseDepth Proofs.ParseComplete.
+From AJ Require Import Model.MsgPack.
+From AJ Require Import Spec.ParseSpec Proofs.Lex Proofs.ParseDepth Proofs.ParseComplete Proofs.MsgPackComplete.
 From AJ Require Gen.Config.
 Local Open Scope nat_scope.
 
@@ -55,6 +56,32 @@ Print Assumptions C15_within_limit_accepted.
 Theorem C15_default_limit_from_source : Gen.Config.gen_default_nesting_limit = 10%Z.
 Proof. reflexivity. Qed.
 Print Assumptions C15_default_limit_from_source.
+
+(* ---- MessagePack reader ---- *)
+Theorem C15_msgpack_ok_nesting : forall cf L f dst r v r',
+  mp_parse cf L f dst r = (Ok, v, r') -> (nesting v <= L)%nat.
+Proof. exact mp_ok_nesting. Qed.
+Print Assumptions C15_msgpack_ok_nesting.
+
+(* the limit has no other effect: an outcome other than TooDeep is the outcome under every larger limit *)
+Theorem C15_msgpack_limit_only_causes_TooDeep : forall cf L f dst r e v r', mp_parse cf L f dst r = (e, v, r') ->
+  e <> TooDeep -> forall L', (L <= L')%nat -> mp_parse cf L' f dst r = (e, v, r').
+Proof. exact mp_limit_monotone. Qed.
+Print Assumptions C15_msgpack_limit_only_causes_TooDeep.
+
+(* L+1 nested arrays are refused with TooDeep after exactly L+1 bytes, whatever follows, filter or not *)
+Theorem C15_msgpack_tower_refused : forall cf L f rest,
+  mp_err (mp_run cf f L (repeat 0x91%N (S L) ++ rest)) = TooDeep /\
+  mp_rd (mp_run cf f L (repeat 0x91%N (S L) ++ rest)) = {| m_rest := rest; m_reads := N.of_nat (S L) |}.
+Proof. exact mp_run_tower_too_deep. Qed.
+Print Assumptions C15_msgpack_tower_refused.
+
+(* the same through maps ( {"a":{"a":...{ ): refused as soon as the header of level L+1 is read *)
+Theorem C15_msgpack_map_tower_refused : forall cf L f rest,
+  mp_err (mp_run cf f L (map_tower L ++ rest)) = TooDeep /\
+  mp_rd (mp_run cf f L (map_tower L ++ rest)) = {| m_rest := rest; m_reads := N.of_nat (3 * L + 1) |}.
+Proof. exact mp_run_tower_too_deep_map. Qed.
+Print Assumptions C15_msgpack_map_tower_refused.
 
 Example C15_example :
   j_err (json_run default_cfg None 2 [91; 91; 91; 93; 93; 93]%N) = TooDeep /\
